@@ -259,7 +259,9 @@ def check_spectrum(out, c, tmp):
         b = FluxBinner(centres.copy())
         bw = midpoint_widths(centres)[1]
     elif kind == 'flux-widths':
-        b = FluxBinner(centres.copy(), widths.copy())
+        # the bin table is handed over in wavelength order (wavenumbers descending): what is stored must still describe
+        # each bin with its own width
+        b = FluxBinner(centres[::-1].copy(), widths[::-1].copy())
         bw = widths
     elif kind == 'simple':
         b = SimpleBinner(centres.copy())
